@@ -8,7 +8,7 @@ seeds="$@"; [ -z "$seeds" ] && seeds=$(ls seeded | grep '^C')
 out=seeded/RESULTS.tsv; [ -z "$1" ] && : > $out
 for s in $seeds; do
   prop=${s%-*}
-  git -C /repo apply /verif/seeded/$s/patch.diff || { echo -e "$s\tpatch-fail" >> $out; continue; }
+  git -C /repo apply $( [ -f /verif/seeded/$s/patch.head.diff ] && echo /verif/seeded/$s/patch.head.diff || echo /verif/seeded/$s/patch.diff ) || { echo -e "$s\tpatch-fail" >> $out; continue; }
   props=$prop; [ -n "$ALL" ] && props=$(jq -r '.checks[].property_id' MANIFEST.json)
   for p in $props; do
     if ! jq -e --arg p $p '.checks[]|select(.property_id==$p)' MANIFEST.json >/dev/null; then echo -e "$s\t$p\tnot-claimed\t" >> $out; continue; fi
